@@ -181,6 +181,43 @@ Section Exchange.
   Definition exchange_dgram_timed (bufsize : nat) (qid : N) (deadline : N)
              (arr : list (N * bytes)) : res bytes :=
     exchange_dgram bufsize qid (arrived_before deadline arr).
+  (* ---- several exchanges on ONE Conn ---- *)
+  (* The receive size is a field of the Conn (Conn.UDPSize) which
+     ExchangeWithConnContext sets for EVERY exchange before it writes the
+     request: from the OPT record of the query when it advertises at least 512
+     octets, else (no OPT record) from Client.UDPSize when that is at least 512,
+     else it stays what the Conn had. *)
+  Definition conn_udpsize (client_size conn_size : N) (opt : option N) : N :=
+    match opt with
+    | Some s => if 512 <=? s then s else conn_size
+    | None => if 512 <=? client_size then client_size else conn_size
+    end.
+
+  (* Conn.ReadMsgHeader: a buffer of UDPSize octets, at least 512 *)
+  Definition dgram_bufsize (udpsize : N) : nat := N.to_nat (N.max 512 udpsize).
+
+  (* exchange_dgram that also returns what stays queued on the socket *)
+  Fixpoint exchange_dgram_rest (bufsize : nat) (qid : N) (ds : list bytes) : res bytes * list bytes :=
+    match ds with
+    | [] => (Err "timeout", [])
+    | d :: r =>
+      match read_msg_dgram bufsize d with
+      | Ok p => if msg_id p =? qid then (Ok p, r) else exchange_dgram_rest bufsize qid r
+      | e => (e, r)
+      end
+    end.
+
+  (* a session: exchange i has the ID qid, the advertised size opt and finds
+     the datagrams still queued plus those that arrive for it *)
+  Fixpoint exchange_session (client_size conn_size : N) (queue : list bytes)
+           (xs : list (N * option N * list bytes)) : list (res bytes) :=
+    match xs with
+    | [] => []
+    | (qid, opt, arrivals) :: r =>
+      let cs := conn_udpsize client_size conn_size opt in
+      let o := exchange_dgram_rest (dgram_bufsize cs) qid (queue ++ arrivals) in
+      fst o :: exchange_session client_size cs (snd o) r
+    end.
 End Exchange.
 
 (* The deadline of an exchange: Client.Timeout when set, else Client.ReadTimeout
